@@ -603,10 +603,20 @@ impl B {
                         None
                     } else {
                         let m = needle_v.len().min(256);
-                        let i1 = self.rng.usize_below(m) as u8;
+                        let mut i1 = self.rng.usize_below(m) as u8;
                         let mut i2 = self.rng.usize_below(m) as u8;
                         if self.rng.chance(9, 10) && i1 == i2 {
                             i2 = ((i2 as usize + 1) % m) as u8;
+                        }
+                        // sometimes an offset just outside the needle: the
+                        // pair constructor must refuse it
+                        if self.rng.chance(1, 8) && needle_v.len() < 254 {
+                            let out = (needle_v.len() + self.rng.range(0, 1)) as u8;
+                            if self.rng.chance(1, 2) {
+                                i2 = out;
+                            } else {
+                                i1 = out;
+                            }
                         }
                         Some((i1, i2))
                     };
@@ -822,6 +832,15 @@ pub fn generate(profile: Profile, verif_seed: u64, index: u64, tgt: Target) -> F
         Profile::C09 | Profile::C10 | Profile::C13 => 1,
     };
     let mut env = draw_env(&mut rng, &tgt, nthreads, matches!(profile, Profile::C15 | Profile::C06 | Profile::C16));
+    if profile != Profile::C15 {
+        // concurrency (racing first calls, stale reads, preemption) is C15's
+        // business: elsewhere simulated threads run one after the other, so a
+        // hand-off is still a move to another thread but never a race, and a
+        // concurrency defect cannot raise an alarm under another property
+        env.sched = Sched::Sequential;
+        env.stale_pct = 0;
+        env.tick_preempt = 0;
+    }
     let rt_seed = rng.next_u64();
     let mut b = B {
         rng: rng.fork(),
@@ -1025,6 +1044,9 @@ pub fn generate(profile: Profile, verif_seed: u64, index: u64, tgt: Target) -> F
                         _ => {}
                     }
                 }
+                // owning conversions exist only with `alloc`: after one, the
+                // configurations would no longer run the same program
+                ops.retain(|op| !matches!(op, Op::FIterOwn { .. } | Op::FinderOwn { .. } | Op::KillNeedle { .. }));
             }
             let cpus: &[Cpu] = if tgt.x86_64 { &[Cpu::Host, Cpu::NoAvx2, Cpu::NoSimd] } else { &[Cpu::Host] };
             for &krate in &[Krate::Std, Krate::Alloc, Krate::Core] {
